@@ -9,9 +9,11 @@ import (
 	"io/ioutil"
 	"math/big"
 	"os"
+	"strings"
 	"testing"
 
 	"github.com/meshplus/bitxhub-kit/types"
+	"github.com/meshplus/bitxhub-model/pb"
 )
 
 type govcLedgerIn struct {
@@ -30,7 +32,12 @@ func TestGovcReplayLedger(t *testing.T) {
 	defer os.RemoveAll(root)
 	l := ldg.StateLedger.(*SimpleLedger)
 	a := types.NewAddressByStr("0x1000000000000000000000000000000000000001")
-	switch in.Values["scenario"] {
+	scenario := in.Values["scenario"]
+	if strings.Contains(in.Clause, "tx-meta") {
+		// the tx-meta clauses of the rollback contracts are replayed by the lookup scenario
+		scenario = "lookups-after-rollback-and-reexecution"
+	}
+	switch scenario {
 	case "changer-replaced-after-finalise":
 		// tx 1 touches the account and is finalised; tx 2 writes to the same (still loaded) account and is reverted
 		l.SetBalance(a, big.NewInt(100))
@@ -158,6 +165,54 @@ func TestGovcReplayLedger(t *testing.T) {
 		if string(got) != string(codeA) {
 			fmt.Println("REPLAY-CONFIRMED a read after an accepted rollback is served from a rolled-back block (cache not emptied)")
 			return
+		}
+	case "lookups-after-rollback-and-reexecution":
+		// blocks 1..3 with transactions; one receipt lookup at height 3; rollback to 2; a different block 3: lookups by the
+		// hashes of the removed block must fail, lookups of the new block must answer the new block's data
+		mk := func(h uint64, parent *types.Hash, tags ...string) (*pb.Block, []pb.Transaction) {
+			ldg.PrepareBlock(nil, h)
+			ldg.SetBalance(a, big.NewInt(int64(h*1000)+int64(len(tags))))
+			accounts, sroot := ldg.FlushDirtyData()
+			var txs []pb.Transaction
+			var rcs []*pb.Receipt
+			for i, tag := range tags {
+				tx := &pb.BxhTransaction{From: a, To: a, Timestamp: int64(h), Nonce: uint64(i), Payload: []byte(tag)}
+				tx.TransactionHash = tx.Hash()
+				txs = append(txs, tx)
+				rcs = append(rcs, &pb.Receipt{TxHash: tx.GetHash(), Ret: []byte(tag), Status: pb.Receipt_SUCCESS})
+			}
+			blk := &pb.Block{BlockHeader: &pb.BlockHeader{Number: h, ParentHash: parent, StateRoot: sroot, Timestamp: int64(h)}, Transactions: &pb.Transactions{Transactions: txs}}
+			blk.BlockHash = blk.Hash()
+			ldg.PersistBlockData(&BlockData{Block: blk, Receipts: rcs, Accounts: accounts, InterchainMeta: &pb.InterchainMeta{}})
+			return blk, txs
+		}
+		b1, _ := mk(1, &types.Hash{}, "a1")
+		b2, _ := mk(2, b1.BlockHash, "b1", "b2")
+		_, old3 := mk(3, b2.BlockHash, "c1", "c2")
+		if r, err := ldg.GetReceipt(old3[0].GetHash()); err != nil || string(r.Ret) != "c1" {
+			fmt.Println("REPLAY-CONFIRMED a receipt of the head block is not found by its transaction hash:", err)
+			return
+		}
+		if err := ldg.Rollback(2); err != nil {
+			fmt.Println("REPLAY-NOT-CONFIRMED rollback failed:", err)
+			return
+		}
+		for _, tx := range old3 {
+			if m, err := ldg.GetTransactionMeta(tx.GetHash()); err == nil {
+				fmt.Printf("replay: tx meta of a rolled-back transaction still answers: height %d index %d\n", m.BlockHeight, m.Index)
+				fmt.Println("REPLAY-CONFIRMED a lookup by transaction hash answers for a rolled-back transaction")
+				return
+			}
+		}
+		_, new3 := mk(3, b2.BlockHash, "e1", "e2", "e3")
+		for i, tx := range new3 {
+			r, err := ldg.GetReceipt(tx.GetHash())
+			t2, err2 := ldg.GetTransaction(tx.GetHash())
+			fmt.Printf("replay: new block 3 position %d: receipt %v (err %v), tx found %v (err %v)\n", i, r != nil && string(r.Ret) == string(tx.GetPayload()), err, t2 != nil, err2)
+			if err != nil || err2 != nil || string(r.Ret) != string(tx.GetPayload()) || t2.GetHash().String() != tx.GetHash().String() {
+				fmt.Println("REPLAY-CONFIRMED a lookup by transaction hash does not answer the data of the block stored at the indexed height and position")
+				return
+			}
 		}
 	default:
 		fmt.Println("REPLAY-NOT-CONFIRMED unknown scenario", in.Values["scenario"])
